@@ -156,13 +156,13 @@ theorem ASum.skip {d d' : Device} {L : List (Nat × Nat)} {ms : List Msg} (h : A
       rw [h.rel.2.1 _ _ hn] at hg'; cases hg'
     · exact h.cover gj vj g' v' hL hg'
 
-/-- publishing the definition (or deletion) of one vector, then refreshing it -/
-theorem asum_def {d : Device} {gi vi : Nat} {g : Group} {v : Vec} {dm : Msg} (hg : getVec d gi vi = some (g, v))
-    (hvg : VG v) (hdm : defMsg d.name g v = .ok dm) :
-    ASum d [(gi, vi)] [dm] (setVec d gi vi (if vecEnabled g v then refreshVec v else v)) := by
-  have hsame := same_refresh_if (vecEnabled g v) v
-  obtain ⟨g', hg', hge'⟩ := getVec_setVec_self (if vecEnabled g v then refreshVec v else v) hg
-  have hhead : AHead d.name g' (if vecEnabled g v then refreshVec v else v) dm := by
+/-- publishing the definition (or deletion) of one vector, which is then left as `v'`: the same vector for every reader
+(the reads made while the definition — and a following update — were built have stuck) -/
+theorem asum_def {d : Device} {gi vi : Nat} {g : Group} {v : Vec} {dm : Msg} (v' : Vec) (hsame : Same v v') (hvg' : VG v')
+    (hg : getVec d gi vi = some (g, v)) (hvg : VG v) (hdm : defMsg d.name g v = .ok dm) :
+    ASum d [(gi, vi)] [dm] (setVec d gi vi v') := by
+  obtain ⟨g', hg', hge'⟩ := getVec_setVec_self v' hg
+  have hhead : AHead d.name g' v' dm := by
     refine AHead.transport (g1 := g) (v1 := v) ?_ hge' hsame
     by_cases hen : vecEnabled g v = true
     · exact Or.inl ⟨hen, g, v, hdm, hen, hvg, ViewEq.refl g v⟩
@@ -174,7 +174,7 @@ theorem asum_def {d : Device} {gi vi : Nat} {g : Group} {v : Vec} {dm : Msg} (hg
     refine ⟨hge, ?_⟩
     split at hif
     · obtain ⟨rfl, rfl⟩ := hif
-      exact ⟨hsame, fun _ => hvg.refresh_if _⟩
+      exact ⟨hsame, fun _ => hvg'⟩
     · subst hif
       exact ⟨Same.refl _, id⟩
   · intro m hm
@@ -204,17 +204,21 @@ theorem announce_asum {d : Device} (hd : AllVG d) (gi vi : Nat) :
       rw [hm] at hdm; cases hdm
     | ok dm =>
       simp only
-      have hA := asum_def hg hvg hdm
-      have hv1 : VG (if vecEnabled g v then refreshVec v else v) := hvg.refresh_if _
-      have hsame := same_refresh_if (vecEnabled g v) v
-      obtain ⟨g', hg', hge'⟩ := getVec_setVec_self (if vecEnabled g v then refreshVec v else v) hg
-      cases hsm : setMsg d.name g (if vecEnabled g v = true then refreshVec v else v) with
+      -- the vector after the definition was built, and after the update was built
+      generalize hv1def : (if vecEnabled g v = true then refreshDef v else v) = v1
+      have hv1 : VG v1 := by rw [← hv1def]; exact hvg.refreshDef_if _
+      have hsame1 : Same v v1 := by rw [← hv1def]; exact same_refreshDef_if (vecEnabled g v) v
+      cases hsm : setMsg d.name g v1 with
       | error x =>
         obtain ⟨mo, hmo⟩ := setMsg_ok d.name g hv1.ok
         rw [hmo] at hsm; cases hsm
       | ok sm =>
         simp only
         refine ⟨?_, trivial⟩
+        have hv2 : VG (if vecEnabled g v1 then refreshVec v1 else v1) := hv1.refresh_if _
+        have hsame12 := same_refresh_if (vecEnabled g v1) v1
+        have hA := asum_def _ (hsame1.trans hsame12) hv2 hg hvg hdm
+        obtain ⟨g', hg', hge'⟩ := getVec_setVec_self (if vecEnabled g v1 then refreshVec v1 else v1) hg
         cases sm with
         | none => exact hA
         | some m =>
@@ -227,8 +231,8 @@ theorem announce_asum {d : Device} (hd : AllVG d) (gi vi : Nat) :
             · simp only [List.mem_singleton] at hx
               subst hx
               refine ⟨gi, vi, g', _, List.mem_singleton.2 rfl, hg', Or.inl ⟨?_, Or.inr ?_⟩⟩
-              · rw [vecEnabled_group _ hge']; exact (setMsg_some hsm).1
-              · exact ⟨g, _, hsm, hv1, (Same.refl _).view hge'.1⟩
+              · exact (vecEnabled_of hge' hsame12.2.2.2.2.1).trans (setMsg_some hsm).1
+              · exact ⟨g, v1, hsm, hv1, hsame12.view hge'.1⟩
           · intro gj vj g'' v'' hL hg''
             obtain ⟨x, hx, hh⟩ := hA.cover gj vj g'' v'' hL hg''
             simp only [List.mem_singleton] at hx
@@ -261,7 +265,7 @@ theorem sendDefs_asum : ∀ (L : List (Nat × Nat)) (d : Device), AllVG d →
         rw [hm] at hdm; cases hdm
       | ok dm =>
         simp only
-        have h1 := asum_def hg hvg hdm
+        have h1 := asum_def _ (same_refreshDef_if (vecEnabled g v) v) (hvg.refreshDef_if _) hg hvg hdm
         have h2 := sendDefs_asum rest _ (h1.allVG hd)
         exact ASum.comp h1 h2
 
